@@ -29,14 +29,14 @@ def build(bdir, harness_src, jobs=6):
     srcs = sorted(glob.glob(R + "/OpenMEEGMaths/src/*.cpp")) + sorted(glob.glob(R + "/OpenMEEGMaths/src/*.C")) + sorted(glob.glob(R + "/OpenMEEG/src/*.cpp"))
     jobs_l = [(s, os.path.join(d, os.path.basename(s) + ".o"), []) for s in srcs]
     jobs_l.append((os.path.join(R, "OpenMEEG", "src", "operators.cpp"), os.path.join(d, "operators.cpp.apple.o"), ["-D__APPLE__"]))
-    jobs_l.append((harness_src, os.path.join(d, "h_c05.o"), []))
+    jobs_l.append((harness_src, os.path.join(d, "h_c05.o"), ["-DC05_STATIC_BUILD"]))
     hdeps = [os.path.join(os.path.dirname(harness_src), "wire.h")]
     ho = os.path.join(d, "h_c05.o")
     if os.path.exists(ho) and os.path.getmtime(ho) < max(os.path.getmtime(x) for x in hdeps): os.remove(ho)
     with ThreadPoolExecutor(max_workers=jobs) as ex:
         rcs = list(ex.map(lambda j: _compile(j[0], j[1], j[2], inc, defs, log), jobs_l))
     if any(rcs): raise RuntimeError("clang/libomp build failed, see %s" % log)
-    objs = [o for s, o, e in jobs_l if not e and not o.endswith("h_c05.o")]
+    objs = [o for s, o, e in jobs_l if not e]
     outs = []
     for tag, repl in (("h_c05_clang", None), ("h_c05_clang_apple", os.path.join(d, "operators.cpp.apple.o"))):
         out = os.path.join(bdir, tag)
